@@ -221,6 +221,9 @@ def get_ipv6_addr_by_EUI64(prefix, mac):
     try:
         eui64 = int(netaddr.EUI(mac).eui64())
         prefix = netaddr.IPNetwork(prefix)
+        if prefix.version != 6:
+            # an IPv4 network ('10.0.0.0/8'): not an IPv6 prefix either
+            raise ValueError()
         return netaddr.IPAddress(prefix.first + eui64 ^ (1 << 57))
     except (ValueError, netaddr.AddrFormatError):
         raise ValueError(_('Bad prefix or mac format for generating IPv6 '
